@@ -40,6 +40,10 @@ def params_strategy(draw):
     cfg.pop("scalar_scales")
     cfg["scalar"] = len(cfg["rmin"]) == 1 and draw(st.booleans())
     cfg["max_workers"] = draw(st.sampled_from([None, None, 1, 4]))
+    if draw(st.integers(0, 3)) == 3 and all(math.floor(lo) >= 1 for lo in cfg["rmin"]):
+        # lower limits given as integers (rmin=1, rmax=2.5 is a natural way to write scales)
+        cfg["rmin"] = [int(math.floor(lo)) for lo in cfg["rmin"]]
+        cfg["int_rmin"] = True
     return cfg
 
 
